@@ -101,4 +101,18 @@ MODULES = {
                      ('read.is_qcfail', 'B'), ('read.mapq', 'Z'), ('min_mapq', 'Z')], ret='B'),
         _tail_spec(),
     ]),
+    # region_depth_count: ONE ITERATION of `for read in bamfile.fetch(reference=chrom, start=start, end=end):` -- the read
+    # counter and the base counter after the iteration; filter_read(read) (tied above) and the per-read base count are
+    # opaque typed inputs.  (Proofs/FnCoverageLoop.v: C09_source_read_loop -- the step folded over the fetched reads gives
+    # the model's bases_count and the number of counted reads)
+    # mutations that break the tie: `count += 1` -> `count += 2`; `bases += sum(...)` -> `bases = sum(...)`; `if filter_read(read)` -> `if not ...`
+    'FnCoverageLoop': ('cnvlib/coverage.py', [
+        dict(name='region_depth_count', coq='fn_read_step',
+             py_params=['bamfile', 'chrom', 'start', 'end', 'gene', 'min_mapq'],
+             loop=dict(first='for read in bamfile.fetch('),
+             carried=[('count', 'Z'), ('bases', 'Z')],
+             params=[('count', 'Z'), ('bases', 'Z'), ('filter_read(read)', 'B', 'passes'),
+                     ('sum((1 for p in read.positions if start <= p < end))', 'Z', 'read_bases')],
+             ret=['Z', 'Z']),
+    ]),
 }
